@@ -8,3 +8,45 @@ check("C13",
       "Modelled, not verified: TLS (no-op startTLS, peer certificate supplied by the harness), Twisted's Protocol plumbing, parseLines text "
       "parsing (exercised by the malformed families, not modelled).",
       "Coq proof over translated functions + correspondence (vm_compute) against real Negotiation", "DESIGN.md 5/C13")
+
+check("C05",
+      "Theorems (Coq, for an uninterpreted certificate hash and all roles / certificates / claims / dialled ids): evaluate = Accept t only if the "
+      "presented certificate hashes to t, the peer claimed t and (client) t is the dialled id; every mismatch rejects (exact iff); two-ended session: "
+      "any key ever registered at either end is proven, mismatches leave no connection on either side, honest pairs connect; invariant over all "
+      "histories of Tub.brokers; getReference and inbound reference URLs only over proven connections. The identity fragment of "
+      "evaluateNegotiationVersion1, the attach key of switchToBanana, the listener lookup and the inbound-url check are translated from the AST on "
+      "every run; the full role x certificate x claim x dialled-id x GET-id matrix (482 cells quick) and random table histories run on three real Tubs "
+      "over the in-memory network and are compared with the model by vm_compute; an oracle with an independently computed hash watches every "
+      "brokerAttached and every table state; 23 malformed-block families, forged URLs, gifts.",
+      "Trusted: TLS proves possession of the reported certificate (peerFromTransport is supplied by the harness); Tubs always have a certificate; no "
+      "listener redirects; failure classes of the 101 / error-block / timeout paths tied by correspondence only. The anonymous-peer refusal rests on "
+      "`assert theirTubID` (would vanish under python -O).",
+      "Coq proof over AST-translated identity checks + exhaustive cell matrix and table histories on real Tubs (vm_compute correspondence)", "DESIGN.md 5/C05")
+
+check("C07",
+      "Theorems (Coq): for EVERY handler semantics above the tokenizer, any two chunkings of the same byte string give the same events and final state "
+      "(feed_app / chunk_independent, by induction, no bound on sizes); instantiated for a transcription of banana.py's discardCount / inOpen / "
+      "unslicer-stack logic; incremental = one-pass decoding; abandonment is final; every well-formed token stream encoded by the translated "
+      "sendToken/int2b128 scans back to the same tokens (token and stream round trip); 65 header bytes end the connection; a violation never pops the "
+      "root and counts exactly the popped frames. Tie: type bytes, SIZE_LIMIT and the four integer codecs + the integer branch of sendToken are "
+      "translated on every run; the real Banana class is driven with policy unslicers (21 opentype policies, 7 root modes) on well-formed and mutated "
+      "streams under whole / bytewise / random chunkings and compared event by event and snapshot by snapshot (buffer, skip, discard, depth, inOpen, "
+      "dead) with the model by vm_compute (about 1000 traces quick). Direct oracles on the real code: chunk independence (policy and standard "
+      "unslicers), exact resynchronisation after a violation at any depth, 64/65-digit header boundary, nothing decoded after abandonment, no exception "
+      "escapes dataReceived.",
+      "Modelled, not verified: the standard unslicers (exercised by the oracle only), Twisted transports, the text of ERROR messages (not compared). "
+      "'No exception escapes' is checked on every generated input, not proved.",
+      "Coq proof of chunk-independence for a generic tokenizer + transcription of handleData; trace validation of the real Banana by vm_compute", "DESIGN.md 5/C07")
+
+check("C19",
+      "Theorems (Coq, 10, over all names, all block lists, all prefixes of the operation list = crash anywhere, all initial directory states incl. "
+      "symlinks): FilePath.child + the parent() guard accepts exactly base/<one good component>; every path touched by an upload lies directly inside "
+      "the target directory; after any prefix the final name is old or complete (atomic publish); an interrupted upload leaves neither a partial final "
+      "file nor a .partial; gatherer and publisher paths are contained; services.json is at every crash point the complete old or new version. The "
+      "guards, extensions and operation ORDERS of remote_putfile / save_service_data / move_into_place / _got_incident / remote_get_incident are "
+      "translated from the AST on every run (fail closed); posixpath and FilePath functions, OS-level op traces (recorded by wrapping os/open) and "
+      "crash views are compared with the model inside Coq (about 2200 traces quick); a filesystem oracle with a sentinel sibling directory checks the "
+      "real services directly, with a crash injected before every OS operation.",
+      "Trusted: rename(2) atomicity; no power-loss / fsync model; no concurrently planted links; posixpath and Twisted FilePath are hand-modelled and "
+      "compared on every run.",
+      "Coq proof over AST-translated op orders and guards + in-Coq correspondence of OS-level traces + sentinel-directory oracle", "DESIGN.md 5/C19")
